@@ -40,9 +40,4 @@ def run(rep, db, tier, seed):
         replica_loop.run(rep, db, tier, ('C06',))
     except Exception as u:
         rep.add(F.Obligation('proposer / main loop drivers', 'inconclusive', f'{type(u).__name__}: {u}'[:600]))
-    try:
-        from props import c06_msgpool
-        c06_msgpool.run(rep, db, tier)
-    except Exception as u:
-        rep.add(F.Obligation('MsgPool retransmission store', 'inconclusive', f'{type(u).__name__}: {u}'[:600]))
     rep.extra['explanation'] = 'local progress (retransmission / catch-up / view-entry) obligations on the real handler MIR; liveness itself is not decided'
